@@ -360,6 +360,11 @@ func TestThresholdSweep(t *testing.T) {
 		{{Kind: wh.KReadFrom, Rel: "a", Src: 3}},
 		{{Kind: wh.KReadFrom, Rel: "1", Src: 2}, {Kind: wh.KFlush}, {Kind: wh.KWrite, Rel: "1"}},
 		{{Kind: wh.KWrite, Rel: "1"}, {Kind: wh.KReadFrom, Rel: "a", Src: 2}},
+		// the read that fills the buffer exactly carries the end of the source
+		{{Kind: wh.KReadFrom, Rel: "a", Src: 1}},
+		{{Kind: wh.KReadFrom, Rel: "a", Src: 4}},
+		{{Kind: wh.KWrite, Rel: "1"}, {Kind: wh.KReadFrom, Rel: "a", Src: 1}},
+		{{Kind: wh.KWrite, Rel: "1"}, {Kind: wh.KReadFrom, Rel: "a", Src: 4}, {Kind: wh.KFlush}, {Kind: wh.KReadFrom, Rel: "a+1", Src: 4}},
 	}
 	n := 0
 	for i, raw := range raws {
@@ -404,7 +409,7 @@ func TestThresholdSweep(t *testing.T) {
 	}
 	hx.EvalN(n)
 	checkKeys(t)
-	hx.Part("threshold sweep: raw 3..20, 120..140, 65530..65556 x side x {flush on, flush off, second life after Reset from the other side} x 19 boundary scripts", int64(n), true)
+	hx.Part("threshold sweep: raw 3..20, 120..140, 65530..65556 x side x {flush on, flush off, second life after Reset from the other side} x 23 boundary scripts", int64(n), true)
 }
 
 // TestWriteMessage: WriteMessage and its six variants send exactly one final
